@@ -56,7 +56,7 @@ def make_call(pidx, variant, backend):
         levels, vals = C.levels_from_dok(dok, dims, modes, ordering)
         inputs[name] = {"dims": list(dims), "fmt": fmt, "stored": {"levels": levels, "vals": vals}}
     return {"assignment": text, "out_fmt": out_fmt, "inputs": inputs, "backend": backend, "problem": pidx % len(PROBLEMS),
-            "variant": variant}
+            "variant": variant, "entry": "method" if (pidx + variant) % 3 == 0 else "evaluate"}
 
 
 @st.composite
